@@ -2,6 +2,7 @@
   Props/C04.lean — None operands propagate through operators instead of failing.
 -/
 import RevalModel.Lemmas.NoneType
+import RevalModel.Lemmas.Denote
 
 namespace Reval.C04
 
@@ -81,4 +82,66 @@ example : applyBin Oracle.empty .add .none (.str ['x']) = .ok .none := by decide
 example : applyBin Oracle.empty .gt (.vec []) .none = .ok (.bool false) := by decide
 example : applyBin Oracle.empty .contains (.vec [.none]) .none = .ok (.bool true) := by decide
 
+/-! ### None at any depth -/
+
+/-- a position under any number of None-propagating operators: unary operators and built-ins other than the None
+    tests, either operand of an arithmetic / bitwise operator, the base of a `.field` / `.index` step -/
+inductive NCtx where
+  | hole
+  | un (op : UnOp) (c : NCtx)
+  | binL (op : BinOp) (c : NCtx) (r : Expr)
+  | binR (op : BinOp) (l : Expr) (c : NCtx)
+  | index (c : NCtx) (i : Index)
+
+def NCtx.fill : NCtx → Expr → Expr
+  | .hole, e => e
+  | .un op c, e => .un op (c.fill e)
+  | .binL op c r, e => .bin op (c.fill e) r
+  | .binR op l c, e => .bin op l (c.fill e)
+  | .index c i, e => .index (c.fill e) i
+
+/-- every operator on the way is a propagating one, and every sibling operand evaluates to a value -/
+def NCtx.Ok (env : Env) : NCtx → Prop
+  | .hole => True
+  | .un op c => op ≠ .some ∧ op ≠ .isNone ∧ c.Ok env
+  | .binL op c r => op ∈ propagating ∧ (∃ v, denote env r = .ok v) ∧ c.Ok env
+  | .binR op l c => op ∈ propagating ∧ (∃ v, denote env l = .ok v) ∧ c.Ok env
+  | .index c _ => c.Ok env
+
+/-- **None propagates through any depth**: a sub-expression that is None makes the whole expression None, however
+    many propagating operators, built-ins and access steps stand above it and whatever the sibling operands are
+    (even ones that alone would be a type error for that operator) -/
+theorem none_propagates_deep (env : Env) (e : Expr) (h : denote env e = .ok .none) :
+    ∀ c : NCtx, c.Ok env → denote env (c.fill e) = .ok .none := by
+  intro c
+  induction c with
+  | hole => intro _; exact h
+  | un op c ih =>
+    intro ⟨h1, h2, hc⟩
+    simp only [NCtx.fill, denote, ih hc, ← applyUn_eq_table]
+    exact none_unary env.oracle op ⟨h1, h2⟩
+  | binL op c r ih =>
+    intro ⟨hp, ⟨v, hv⟩, hc⟩
+    simp only [NCtx.fill, denote, ih hc, hv, ← applyBin_eq_table]
+    exact (none_arith env.oracle op hp v).1
+  | binR op l c ih =>
+    intro ⟨hp, ⟨v, hv⟩, hc⟩
+    simp only [NCtx.fill, denote, ih hc, hv, ← applyBin_eq_table]
+    exact (none_arith env.oracle op hp v).2
+  | index c i ih =>
+    intro hc
+    simp only [NCtx.fill, denote, ih hc]
+    exact index_none i
+
+/-- … and that is what evaluation returns (deterministic functions, any cache state consistent with them) -/
+theorem eval_none_propagates_deep (env : Env) (hd : Deterministic env) (rp : List Nat) (st : St) (hc : Consistent env st)
+    (e : Expr) (h : denote env e = .ok .none) (c : NCtx) (hok : c.Ok env) :
+    (eval env rp (c.fill e) st).1 = .ok .none := by
+  rw [(eval_denote env hd rp _ st hc).1]; exact none_propagates_deep env e h c hok
+
+/-- a missing field four operators deep: `round(-(a.b.c + "x")) * [i1]` on `{a: {}}` is None, although `none + "x"`,
+    `… * [i1]` would be type errors for any other left operand -/
+example : (eval ⟨.map [(['a'], .map [])], [], [], Oracle.empty⟩ []
+    ((NCtx.binL .mult (.un .round (.un .neg (.binL .add (.index .hole (.key ['c'])) (.lit (.str ['x']))))) (.vec [.lit (.int 1)])).fill
+      (.index (.ref ['a']) (.key ['b']))) St.init).1 = .ok .none := by decide
 end Reval.C04
